@@ -3,8 +3,8 @@
 
 namespace e2 {
 
-std::vector<BodyRec> g_log;
-int g_deliveries;
+thread_local std::vector<BodyRec> g_log;
+thread_local int g_deliveries;
 
 using RunFn = vf::Outcome (*)(const vf::json&, const std::string&);
 std::map<std::string, RunFn>& policies() {
